@@ -396,6 +396,13 @@ def no_extra_fields(cspec, base, depth=0):
   return True
 
 
+def union_counterpart(base, spec):
+  try:
+    return base.get_candidate(spec)
+  except Exception:  # pylint: disable=broad-except
+    return None
+
+
 def localize_ext(ext, child, base, v, depth=0):
   """Descends to the innermost (extended, child, base, value) where the extended
   spec accepts the value and the base rejects it; `child` is the corresponding
@@ -406,9 +413,12 @@ def localize_ext(ext, child, base, v, depth=0):
   if depth > 8 or ext.frozen or v is None or isinstance(ext, T.Union):
     return ext, child, base, v
   if isinstance(base, T.Union):
-    for bc in base.candidates:
-      if type(bc) is type(ext) and bad(ext, bc, v):
-        return localize_ext(ext, child, bc, v, depth + 1)
+    # Descend only into the candidate that extend() itself pairs the child with
+    # (public `Union.get_candidate`); if that counterpart accepts the value, the
+    # rejection comes from the Union's own dispatch rule and is attributed to it.
+    bc = union_counterpart(base, child if child is not None else ext)
+    if bc is not None and bad(ext, bc, v):
+      return localize_ext(ext, child, bc, v, depth + 1)
     return ext, child, base, v
   if isinstance(ext, T.List) and isinstance(base, T.List) and isinstance(v, list):
     ch = same_kind(child, T.List)
@@ -539,6 +549,8 @@ def extend_law(ctx, rng, da, db, a, base, state):
     c['extend_compat_checks'] += 1
     if not compat(ctx, base, ext):
       le, lb = localize_incompatible(ext, base)
+      if isinstance(lb, T.Union) and not isinstance(le, T.Union) and lb is base:
+        lb = union_counterpart(lb, a) or lb
       pair = f'{cname(le)}->{cname(lb)}'
       if isinstance(le, T.Enum) and not isinstance(lb, (T.Enum, T.Union, T.Any)):
         pair = 'Enum->other-class'
